@@ -47,11 +47,310 @@ MANIFEST = {
         "design_ref": "DESIGN.md 3/C11, docs/sync.md",
     }
 }
-PROPS = ["Nstd.Sync.Props"]
+PROPS = ["Nstd.Sync.Props", "Nstd.Sync.PropsDeadline"]
 DRIVER = "drv_sync"
 LEAN_TARGETS = PROPS + [DRIVER]
 LIB_SOURCES = ["Mutex", "Semaphore", "Signal", "Monitor", "Thread", "Memory"]
 NSEC = 1000000000
+
+
+# ---- translator: the deadline arithmetic of the three timed waits, from the current sources ---------------
+# `bool X::wait(int64 timeout)` (POSIX branch): struct timespec ts; clock_gettime(CLOCK_REALTIME, &ts); <statements that
+# only update ts.tv_sec / ts.tv_nsec>; ... timedwait(..., &ts).  The statements are translated by symbolic execution into a
+# Lean function (sec, nsec, timeout : Int) -> Int x Int (lean/Nstd/Generated/SyncDeadline.lean); PropsDeadline.lean proves
+# deadline_exact_* about THAT function and that the model's `addTimeout` (Posix.lean) computes the same pair.
+import re
+from pathlib import Path
+
+GEN_OUT = C.LEAN / "Nstd" / "Generated" / "SyncDeadline.lean"
+DEADLINE_SOURCES = [("signal", "Signal", "src/Signal.cpp", "pthread_cond_timedwait"),
+                    ("monitor", "Monitor", "src/Monitor.cpp", "pthread_cond_timedwait"),
+                    ("semaphore", "Semaphore", "src/Semaphore.cpp", "sem_timedwait")]
+
+
+class TransErr(Exception):
+    pass
+
+
+def _strip_comments(src):
+    src = re.sub(r"/\*.*?\*/", " ", src, flags=re.S)
+    return re.sub(r"//[^\n]*", "", src)
+
+
+def _posix_branch(text):
+    """resolve `#ifdef _WIN32 A #else B #endif` to B (`#ifndef _WIN32` to A); other directives are refused"""
+    out, stack = [], []          # stack of booleans: is the current region active
+    for line in text.split("\n"):
+        t = line.strip()
+        if t.startswith("#"):
+            d = t[1:].split()
+            if d[:2] == ["ifdef", "_WIN32"]:
+                stack.append(False)
+            elif d[:2] == ["ifndef", "_WIN32"]:
+                stack.append(True)
+            elif d[:1] == ["else"] and stack:
+                stack[-1] = not stack[-1]
+            elif d[:1] == ["endif"] and stack:
+                stack.pop()
+            else:
+                raise TransErr("unexpected preprocessor line inside the function: " + t)
+            continue
+        if all(stack):
+            out.append(line)
+    return "\n".join(out)
+
+
+def _function_body(src, cls):
+    m = re.search(r"\bbool\s+" + cls + r"\s*::\s*wait\s*\(\s*int64\s+(\w+)\s*\)\s*\{", src)
+    if not m:
+        raise TransErr(f"{cls}::wait(int64) not found")
+    depth, i = 1, m.end()
+    while i < len(src) and depth:
+        depth += {"{": 1, "}": -1}.get(src[i], 0)
+        i += 1
+    if depth:
+        raise TransErr(f"{cls}::wait(int64): unbalanced braces")
+    return m.group(1), src[m.end():i - 1]
+
+
+_TOK = re.compile(r"\s*(?:(\d+)[uUlL]*|(ts\s*\.\s*tv_nsec|ts\s*\.\s*tv_sec|[A-Za-z_]\w*)|(\+\+|--|\+=|-=|\*=|/=|%=|>=|<=|==|!=|&&|\|\||[-+*/%()<>=!{};]))")
+
+
+def _tokens(text):
+    toks, i = [], 0
+    text = text.rstrip()
+    while i < len(text):
+        m = _TOK.match(text, i)
+        if not m or m.end() == i:
+            raise TransErr("cannot tokenise: " + text[i:i + 40].strip())
+        if m.group(1) is not None:
+            toks.append(("num", int(m.group(1))))
+        elif m.group(2) is not None:
+            toks.append(("id", re.sub(r"\s", "", m.group(2))))
+        else:
+            toks.append(("op", m.group(3)))
+        i = m.end()
+    return toks
+
+
+class _Sym:
+    """symbolic execution of the statement list into Lean `let`s (SSA); C `/` `%` on the non-negative operands that occur
+    here (clock value, time-out >= 0) are Lean's Int `/` `%`"""
+
+    def __init__(self, toks, param):
+        self.t, self.i, self.param = toks, 0, param
+        self.env = {"ts.tv_sec": "sec", "ts.tv_nsec": "nsec"}
+        self.lets, self.n = [], 0
+
+    def peek(self):
+        return self.t[self.i] if self.i < len(self.t) else ("eof", None)
+
+    def take(self, kind=None, val=None):
+        k, v = self.peek()
+        if (kind and k != kind) or (val is not None and v != val):
+            raise TransErr(f"expected {val or kind}, found {v}")
+        self.i += 1
+        return v
+
+    def fresh(self, var, expr):
+        self.n += 1
+        name = ("sec" if var == "ts.tv_sec" else "nsec") + str(self.n)
+        self.lets.append(f"  let {name} : Int := {expr}")
+        self.env[var] = name
+
+    # expressions: || && comparison additive multiplicative unary primary
+    def expr(self):
+        a = self.conj()
+        while self.peek() == ("op", "||"):
+            self.take()
+            a = f"({a} ∨ {self.conj()})"
+        return a
+
+    def conj(self):
+        a = self.cmp()
+        while self.peek() == ("op", "&&"):
+            self.take()
+            a = f"({a} ∧ {self.cmp()})"
+        return a
+
+    def cmp(self):
+        a = self.add()
+        k, v = self.peek()
+        if k == "op" and v in (">=", "<=", "==", "!=", "<", ">"):
+            self.take()
+            b = self.add()
+            rel = {">=": "≥", "<=": "≤", "==": "=", "!=": "≠"}.get(v, v)
+            return f"({a} {rel} {b})"
+        return a
+
+    def add(self):
+        a = self.mul()
+        while self.peek() in (("op", "+"), ("op", "-")):
+            o = self.take()
+            a = f"({a} {o} {self.mul()})"
+        return a
+
+    def mul(self):
+        a = self.unary()
+        while self.peek() in (("op", "*"), ("op", "/"), ("op", "%")):
+            o = self.take()
+            a = f"({a} {o} {self.unary()})"
+        return a
+
+    def unary(self):
+        if self.peek() == ("op", "-"):
+            self.take()
+            return f"(-{self.unary()})"
+        if self.peek() == ("op", "!"):
+            self.take()
+            return f"(¬{self.unary()})"
+        k, v = self.peek()
+        if k == "num":
+            self.take()
+            return str(v)
+        if k == "id":
+            self.take()
+            if v in self.env:
+                return self.env[v]
+            if v == self.param:
+                return "timeout"
+            raise TransErr("unknown identifier in the deadline arithmetic: " + v)
+        if (k, v) == ("op", "("):
+            self.take()
+            e = self.expr()
+            self.take("op", ")")
+            return e
+        raise TransErr(f"unexpected token {v}")
+
+    def is_stmt_start(self):
+        k, v = self.peek()
+        if k == "id" and v in self.env:
+            return True
+        if k == "id" and v == "if":
+            return True
+        if k == "op" and v in ("++", "--"):
+            return True
+        return False
+
+    def stmt(self):
+        k, v = self.peek()
+        if (k, v) == ("id", "if"):
+            self.take()
+            self.take("op", "(")
+            c = self.expr()
+            self.take("op", ")")
+            before = dict(self.env)
+            self.block()
+            then = dict(self.env)
+            self.env = dict(before)
+            if self.peek() == ("id", "else"):
+                self.take()
+                self.block()
+            els = dict(self.env)
+            self.env = dict(before)
+            for var in ("ts.tv_sec", "ts.tv_nsec"):
+                if then[var] != els[var]:
+                    self.fresh(var, f"if {c} then {then[var]} else {els[var]}")
+            return
+        if k == "op" and v in ("++", "--"):
+            self.take()
+            var = self.take("id")
+            if var not in self.env:
+                raise TransErr("increment of " + var)
+            self.take("op", ";")
+            self.fresh(var, f"{self.env[var]} {'+' if v == '++' else '-'} 1")
+            return
+        var = self.take("id")
+        if var not in self.env:
+            raise TransErr("assignment to " + var)
+        k, o = self.peek()
+        if k == "op" and o in ("++", "--"):
+            self.take()
+            self.take("op", ";")
+            self.fresh(var, f"{self.env[var]} {'+' if o == '++' else '-'} 1")
+            return
+        if k != "op" or o not in ("=", "+=", "-=", "*=", "/=", "%="):
+            raise TransErr(f"unsupported statement on {var}: {o}")
+        self.take()
+        e = self.expr()
+        self.take("op", ";")
+        self.fresh(var, e if o == "=" else f"{self.env[var]} {o[0]} {e}")
+
+    def block(self):
+        if self.peek() == ("op", "{"):
+            self.take()
+            while self.peek() != ("op", "}"):
+                self.stmt()
+            self.take()
+        else:
+            self.stmt()
+
+
+def translate_deadline(repo, cls, rel, call):
+    src = _strip_comments((Path(repo) / rel).read_text())
+    param, body = _function_body(src, cls)
+    body = _posix_branch(body)
+    m = re.search(r"struct\s+timespec\s+ts\s*;\s*clock_gettime\s*\(\s*CLOCK_REALTIME\s*,\s*&\s*ts\s*\)\s*;", body)
+    if not m:
+        raise TransErr(f"{cls}::wait(int64): `struct timespec ts; clock_gettime(CLOCK_REALTIME, &ts);` not found")
+    if "ts" in re.findall(r"\w+", body[:m.start()]):
+        raise TransErr(f"{cls}::wait(int64): ts used before clock_gettime")
+    rest = body[m.end():]
+    # the statement list ends at the first statement that is not about ts (the loop / the lock of the internal mutex)
+    cut = re.search(r"\b(for|while|do|VERIFY|return|pthread_\w+|sem_\w+|goto)\b", rest)
+    if not cut:
+        raise TransErr(f"{cls}::wait(int64): end of the deadline computation not found")
+    stmts, tail = rest[:cut.start()], rest[cut.start():]
+    if re.search(r"ts\s*\.\s*tv_|\bts\s*=", tail):
+        raise TransErr(f"{cls}::wait(int64): the deadline is modified after the computation that was translated")
+    calls = re.findall(r"\b" + call + r"\s*\(([^;]*?)\)\s*(?:[!=]=|\))", tail)
+    if not calls or not all(re.search(r",\s*&\s*ts\s*$", a) for a in calls):
+        raise TransErr(f"{cls}::wait(int64): {call} is not called with &ts")
+    sym = _Sym(_tokens(stmts), param)
+    while sym.peek()[0] != "eof":
+        if not sym.is_stmt_start():
+            raise TransErr(f"{cls}::wait(int64): statement between clock_gettime and the wait that is not deadline arithmetic: {sym.peek()[1]}")
+        sym.stmt()
+    text = " ".join(stmts.split())
+    return text, sym.lets, sym.env["ts.tv_sec"], sym.env["ts.tv_nsec"]
+
+
+def translate(repo=None):
+    repo = repo or C.REPO
+    out = ["/- generated by tools/areas/sync.py (translate) from src/{Signal,Monitor,Semaphore}.cpp - do not edit -/",
+           "namespace Nstd.Generated.SyncDeadline", ""]
+    summary = []
+    try:
+        for name, cls, rel, call in DEADLINE_SOURCES:
+            text, lets, sec, nsec = translate_deadline(repo, cls, rel, call)
+            out.append(f"/-- `{cls}::wait(int64 timeout)`, between `clock_gettime(CLOCK_REALTIME, &ts)` and `{call}(…, &ts)`:")
+            out.append(f"    `{text}` -/")
+            out.append(f"def {name} (sec nsec timeout : Int) : Int × Int :=")
+            out += lets
+            out.append(f"  ({sec}, {nsec})")
+            out.append("")
+            summary.append(f"{cls}: {len(lets)} assignment(s)")
+    except (OSError, TransErr) as e:
+        return False, str(e)
+    out.append("end Nstd.Generated.SyncDeadline")
+    textall = "\n".join(out) + "\n"
+    GEN_OUT.parent.mkdir(parents=True, exist_ok=True)
+    if not GEN_OUT.exists() or GEN_OUT.read_text() != textall:
+        GEN_OUT.write_text(textall)
+    return True, "; ".join(summary)
+
+
+def gen(ctx):
+    ok, msg = translate()
+    if ctx is not None:
+        ctx.cov["translated"] = "deadline arithmetic of the timed waits -> Nstd/Generated/SyncDeadline.lean: " + msg
+    return ok, msg
+
+
+def setup():
+    ok, msg = translate()
+    if not ok:
+        print("sync translate:", msg)
 
 
 # ---- scenarios -----------------------------------------------------------------------------------
@@ -697,7 +996,7 @@ def check(ctx):
         "one atomic step = one POSIX call + the library code up to the next POSIX call (the `signaled` flags are only accessed under the internal mutex)",
         "clients respect the API preconditions: unlock / Monitor::wait only by the lock holder, a Thread object is used by one thread at a time and is not restarted after join",
     ]
-    proof_ok = C.proof_stage(ctx, PROPS, [DRIVER], leanchecker=(ctx.tier == "thorough"))
+    proof_ok = C.proof_stage(ctx, PROPS, [DRIVER], gen=gen, leanchecker=(ctx.tier == "thorough"))
     harness = build(ctx)
     driver = C.driver_path(DRIVER)
     if harness is None or not driver.exists():
